@@ -87,3 +87,31 @@ Definition lower_alt (u : ulib) (a : alt) : alt :=
   | MCls cs rs ks true inv => MCls (map (to_lower u) cs) (map (to_lower u) rs) ks true inv
   | other => other
   end.
+
+(* ---- the same loop over the items of a sequence (case *SeqExpr): two adjacent literals with the same i flag are
+   concatenated ("a" "b" => "ab", l0.Val += l1.Val); everything else is left alone; a sequence left with one item is
+   replaced by it ---- *)
+Inductive item :=
+| ILit (rs : list rune) (ic : bool)
+| IOther (k : nat).          (* any other expression, by its place in the sequence as written *)
+
+Definition scombine (a b : item) : option item :=
+  match a, b with
+  | ILit x i0, ILit y i1 => if Bool.eqb i0 i1 then Some (ILit (x ++ y) i0) else None
+  | _, _ => None
+  end.
+
+Fixpoint spass (prev : item) (rest : list item) : list item :=
+  match rest with
+  | [] => [prev]
+  | x :: rest' =>
+      match scombine prev x with
+      | Some m => m :: match rest' with [] => [] | y :: rest'' => spass y rest'' end
+      | None => prev :: spass x rest'
+      end
+  end.
+
+Definition spass_list (l : list item) : list item :=
+  match l with [] => [] | a :: rest => spass a rest end.
+
+Definition optimize_seq (l : list item) : list item := iter (length l) spass_list l.
